@@ -141,7 +141,7 @@ def attach_log(obj, log, seen=None):
 
 STR_KEYS = ['a', 'b', 'c', 'k', 'key', '', '0', '1', 'with space', 'é']
 PATH_ONLY_KEYS = [0, 1, 7, ('t', 1), 'dot.ted', None, '*', '**', 2.5, True]
-ATTRS = ['a', 'b', 'c', 'x', 'y']
+ATTRS = ['a', 'b', 'c', 'x', 'y', '_priv']
 LEAVES = [1, 0, -5, 2.5, 'leaf', '', None, True, b'by']
 
 
